@@ -154,3 +154,106 @@ func handoffCmd(args []string) int {
 	fmt.Printf("STATS traces=%d events=%d handoff=%d\n", n, sink.N, n)
 	return 0
 }
+
+// ---- stcp: the answer to a visitor connection versus the first bytes of the backend (C01) -------------------------
+
+func init() { commands["visitororder"] = visitorOrderCmd }
+
+// visitorOrderCmd: real frps, frpc with an stcp proxy whose backend speaks first, frpc with the stcp visitor. The
+// goroutine that accepted the visitor connection is parked between handing it to the proxy and answering it; the
+// backend's first bytes travel meanwhile. Whatever the schedule, the user must receive what the backend wrote.
+func visitorOrderCmd(args []string) int {
+	fs := flag.NewFlagSet("visitororder", flag.ExitOnError)
+	out := fs.String("out", "visitororder.ndjson", "trace output")
+	rounds := fs.Int("rounds", 3, "rounds")
+	fs.Parse(args)
+	env.QuietLogs()
+	sink, err := trace.Open(*out)
+	if err != nil {
+		fmt.Println(err)
+		return 2
+	}
+	sched.Install(sink)
+	sched.SetFilter(func(p string) bool { return p == "svc.visitorconn.accepted" })
+	sink.Reset("scenario", "tunnel")
+	n := 0
+	for round := 0; round < *rounds; round++ {
+		for _, gated := range []bool{false, true} {
+			n++
+			srv, err := env.StartServer(func(c *v1.ServerConfig) { c.BindPort = tnPort() })
+			if err != nil {
+				sink.Emit("drv", "tn.note", "n", n, "cfg", tnCfg{}, "what", "server start failed", "err", err.Error())
+				continue
+			}
+			banner := genBody(int64(1000+n), 1000)
+			ln, _ := net.Listen("tcp", "127.0.0.1:0")
+			go func() {
+				for {
+					c, err := ln.Accept()
+					if err != nil {
+						return
+					}
+					go func(c net.Conn) { // a server-first protocol: greet, then wait for the peer to leave
+						defer c.Close()
+						_, _ = c.Write(banner)
+						_ = c.SetReadDeadline(time.Now().Add(10 * time.Second))
+						_, _ = io.Copy(io.Discard, c)
+					}(c)
+				}
+			}()
+			px := &v1.STCPProxyConfig{}
+			px.Name, px.Type, px.LocalIP, px.LocalPort, px.Secretkey = "so", "stcp", "127.0.0.1", ln.Addr().(*net.TCPAddr).Port, "k"
+			cli, err1 := env.StartClient(srv.Cfg.BindPort, nil, []v1.ProxyConfigurer{px}, nil)
+			vs := &v1.STCPVisitorConfig{}
+			vs.Name, vs.Type, vs.ServerName, vs.SecretKey, vs.BindAddr, vs.BindPort = "sv", "stcp", "so", "k", "127.0.0.1", tnPort()
+			vcli, err2 := env.StartClient(srv.Cfg.BindPort, nil, nil, []v1.VisitorConfigurer{vs})
+			if err1 != nil || err2 != nil {
+				sink.Emit("drv", "tn.note", "n", n, "cfg", tnCfg{}, "what", "client start failed", "err", "")
+				srv.Stop()
+				continue
+			}
+			ready := waitFor(8*time.Second, func() bool {
+				st, ok := cli.Svc.StatusExporter().GetProxyStatus("so")
+				if !ok || st.Phase != "running" {
+					return false
+				}
+				c, err := net.DialTimeout("tcp", fmt.Sprintf("127.0.0.1:%d", vs.BindPort), 200*time.Millisecond)
+				if err != nil {
+					return false
+				}
+				c.Close()
+				return true
+			})
+			time.Sleep(500 * time.Millisecond)
+			got, okBytes, hit := 0, false, false
+			if ready {
+				var g *sched.Gate
+				if gated {
+					g = sched.Arm("svc.visitorconn.accepted", func(kv sched.KV) bool { return true })
+				}
+				if c, err := net.DialTimeout("tcp", fmt.Sprintf("127.0.0.1:%d", vs.BindPort), 2*time.Second); err == nil {
+					if g != nil {
+						_, hit = g.WaitHit(3 * time.Second)
+						time.Sleep(400 * time.Millisecond) // the backend's greeting crosses the tunnel meanwhile
+						g.Release()
+					}
+					buf := make([]byte, len(banner))
+					_ = c.SetReadDeadline(time.Now().Add(6 * time.Second))
+					got, _ = io.ReadFull(c, buf)
+					okBytes = got == len(banner) && string(buf) == string(banner)
+					c.Close()
+				} else if g != nil {
+					g.Release()
+				}
+			}
+			sink.Emit("drv", "tn.order", "n", n, "ready", ready, "gated", gated, "gate_hit", hit, "want", len(banner), "got", got, "ok", okBytes)
+			vcli.Stop()
+			cli.Stop()
+			srv.Stop()
+			ln.Close()
+		}
+	}
+	sink.Close()
+	fmt.Printf("STATS traces=1 events=%d order=%d\n", sink.N, n)
+	return 0
+}
